@@ -878,7 +878,7 @@ func closeEverywhere() []script {
 		script{Name: "lag-carry-over-large", Writes: small, ReadSizes: []int{1000, 50000, 9}, Reads: -1,
 			Resp: []int{40000, 65536, 100, 30000}, Down: 135636, FailAt: -1, Close: "drained", Lag: [][2]int{{0, 2}, {1, 3}, {2, 4}}, NoFlush: true},
 	)
-	many := make([]int, 40)
+	many := make([]int, 28)
 	for i := range many {
 		many[i] = 20 + i
 	}
@@ -1134,7 +1134,7 @@ func main() {
 		scripts = append(scripts, ce[len(ce)-1]) // the lingering session first: its wait overlaps the rest
 		scripts = append(scripts, ce[:len(ce)-1]...)
 		rng := vlib.NewRng(mixSeed(r.Seed))
-		n := r.Scale(120, 1200)
+		n := r.Scale(100, 1200)
 		for i := 0; i < n; i++ {
 			scripts = append(scripts, genScript(rng, i))
 		}
